@@ -354,8 +354,9 @@ pub(crate) fn extract_code_block_start(line: &str) -> Option<(&str, &str, &str)>
         return Some((line, "", ""));
     }
 
+    // byte offsets (not character counts): the line is sliced with them
     let mut language_start = None;
-    for (index, ch) in line.chars().enumerate() {
+    for (index, ch) in line.char_indices() {
         if let Some(language_start) = language_start {
             if ch == '{' {
                 return Some((
